@@ -13,3 +13,4 @@ import EcModel.Props.C12
 import EcModel.Props.C13
 import EcModel.Props.C14
 import EcModel.Props.C13Config
+import EcModel.TxWake
